@@ -881,6 +881,7 @@ def run(ctx):
     dis = []
     n_corr = 0
     n_decl = 0
+    n_typechecked = 0
     nontrivial = set()
 
     def cmp(what, q, real, model):
@@ -896,7 +897,10 @@ def run(ctx):
             continue
         any_refused = False
         target_rooted = None
-        for line in x["X"]:
+        # the type checker only runs when parsing / building raised no error: expression types exist only then
+        typechecked = all(e in (LHS, INCOMP, "$Expression_must_be_side-effect_free") for e in x["E"])
+        n_typechecked += typechecked
+        for line in (x["X"] if typechecked else []):
             mm = RX_INFO.search(line)
             if not mm:
                 continue
@@ -916,7 +920,7 @@ def run(ctx):
                 target_rooted = True
             elif target_rooted is None:
                 target_rooted = False
-        for line in x["A"]:
+        for line in (x["A"] if typechecked else []):
             ma = RX_A.match(line)
             if not ma:
                 continue
@@ -979,6 +983,8 @@ def run(ctx):
                         {"const": d.get("const"), "free": d.get("free")})
         # the verdict the model predicts from the lvalue rules alone (single-write models, well-typed otherwise)
         m = k.meta
+        if not typechecked:
+            continue
         if x["V"] == "accepted" and any_refused:
             model_verdict_dis.append({"meta": m, "model": k.text, "why": "the Lean model refuses a write the library accepted"})
         if x["V"] == "rejected" and not any_refused and (LHS in x["E"] or INCOMP in x["E"]) and not m.get("sibling"):
@@ -990,6 +996,7 @@ def run(ctx):
                 spec_dis.append({"meta": m, "model": k.text, "lean_constRooted": target_rooted})
     cov["correspondence_cases"] = n_corr
     cov["declared_types_compared"] = n_decl
+    cov["models_reaching_the_type_checker"] = n_typechecked
     cov["correspondence_disagreements"] = len(dis) + len(model_verdict_dis) + len(spec_dis)
     cov["distinct_nontrivial"] = len(nontrivial)
     cov["distinct_driver_queries"] = len(ans)
